@@ -58,6 +58,56 @@ AFFINE_SPEC = {
 }
 
 
+def meet_label_uses(s, enc):
+    """(compared?, other uses): the integer codes of a level's labels may only be compared for equality - all at once
+    (np.equal.outer(enc, enc)) or pairwise (enc[i] == enc[j], enc[i] != enc[j]) - and counted (len, shape)."""
+    compared = False
+    other = []
+    seen = set()
+    for st in s.sites:
+        if st.kind not in ("call", "cmp", "subscript", "div", "mutate", "return"):
+            continue
+        for key in ("term", "val", "key"):
+            term = st.d.get(key)
+            if term is None or not hasattr(term, "op") or term.id in seen:
+                continue
+            seen.add(term.id)
+            for p in _parents(term, enc):
+                if p.op == "call" and call_name(p) == "np.equal.outer":
+                    compared = compared or list(p.a[1]) == [enc, enc]
+                    continue
+                if p.op == "call" and call_name(p) == "builtins.len":
+                    continue
+                if p.op == "attr" and p.a[1] in ("shape", "size"):
+                    continue
+                if p.op == "sub" and p.a[0] is enc:
+                    bad_here = False
+                    for q in _parents(term, p):
+                        if q.op == "cmp" and q.a[0] in ("==", "!=") and all(z.op == "sub" and z.a[0] is enc for z in q.a[1:]):
+                            compared = True
+                        else:
+                            bad_here = True
+                            other.append(tm.show(q, 2))
+                    continue
+                other.append(tm.show(p, 2))
+    # path conditions (`if enc[i] != enc[j]: continue`)
+    for st in s.sites:
+        for c, _p in symeval.pc_conds(st.pc):
+            if c.id in seen:
+                continue
+            seen.add(c.id)
+            for p in _parents(c, enc):
+                if p.op == "sub" and p.a[0] is enc:
+                    for q in _parents(c, p):
+                        if q.op == "cmp" and q.a[0] in ("==", "!=") and all(z.op == "sub" and z.a[0] is enc for z in q.a[1:]):
+                            compared = True
+                        else:
+                            other.append(tm.show(q, 2))
+                elif not ((p.op == "call" and call_name(p) in ("np.equal.outer", "builtins.len")) or (p.op == "attr" and p.a[1] in ("shape", "size"))):
+                    other.append(tm.show(p, 2))
+    return compared, other
+
+
 def rule_affine(ctx):
     R = "C08.AFFINE"
     for q, (pp, dp) in sorted(AFFINE_SPEC.items()):
@@ -190,17 +240,7 @@ def rule_eqonly(ctx):
     il = [c for c in s.calls() if c.callee == "util.index_labels"]
     need(len(il) == 1, R, "_meet: index_labels call not found")
     enc = tm.sub(il[0].term, tm.const(0))
-    eq = [c for c in s.calls() if c.callee == "np.equal.outer"]
-    good = len(eq) == 1 and list(eq[0].args) == [enc, enc]
-    other = []
-    eq0 = eq[0] if eq else None
-    for st in s.sites:
-        if st.kind in ("call", "cmp", "subscript", "div") and st is not eq0:
-            term = st.d.get("term")
-            if term is not None:
-                for p in _parents(term, enc):
-                    if not (p.op == "call" and call_name(p) == "np.equal.outer"):
-                        other.append(tm.show(p, 2))
+    good, other = meet_label_uses(s, enc)
     yield ob(R, f, "hierarchy._meet:labels", good and not other, "level labels are indexed and compared only by np.equal.outer(lab, lab)" if good and not other else "label indices also used by %s" % sorted(set(other))[:3])
 
 
